@@ -3,6 +3,8 @@ package minibus
 import (
 	"context"
 	"sync"
+
+	"github.com/smart-core-os/sc-golang/internal/verifhook"
 )
 
 type Bus struct {
@@ -18,11 +20,13 @@ func (b *Bus) Send(ctx context.Context, event any) (ok bool) {
 		listeners = append(listeners, l)
 	}
 	b.listenerM.RUnlock()
+	verifhook.Yield("bus.send.snapshot")
 
 	needGc := false
 
 	// send the event to each listener that's not closed
 	for _, l := range listeners {
+		verifhook.Yield("bus.send.listener")
 		ok, active := l.send(ctx, event)
 		if !ok {
 			return false
@@ -34,6 +38,7 @@ func (b *Bus) Send(ctx context.Context, event any) (ok bool) {
 	}
 
 	if needGc {
+		verifhook.Yield("bus.send.collect")
 		b.collect()
 	}
 
@@ -68,6 +73,7 @@ func (b *Bus) Listen(ctx context.Context) <-chan any {
 	}()
 
 	// store the listener
+	verifhook.Yield("bus.listen.register")
 	b.listenerM.Lock()
 	defer b.listenerM.Unlock()
 	b.listeners = append(b.listeners, l)
@@ -102,6 +108,7 @@ func (l *listener) send(ctx context.Context, event any) (ok bool, active bool) {
 }
 
 func (l *listener) stop() {
+	verifhook.Yield("bus.stop.lock")
 	l.m.Lock()
 	defer l.m.Unlock()
 	if l.ch != nil {
